@@ -12,8 +12,8 @@ EXTENDS TRCOps, TLC, Json
 
 Trace == ndJsonDeserialize("trace.ndjson")
 
-VARIABLES l, pool, nacc, nvalid, nrt
-vars == <<l, pool, nacc, nvalid, nrt>>
+VARIABLES l, pool, nacc, nvalid, nrt, nder
+vars == <<l, pool, nacc, nvalid, nrt, nder>>
 R == Trace[l]
 
 Expand(p) == [p EXCEPT !.certs = [i \in 1..Len(p.certs) |-> IF p.certs[i] >= 1 /\ p.certs[i] <= Len(pool)
@@ -21,7 +21,7 @@ Expand(p) == [p EXCEPT !.certs = [i \in 1..Len(p.certs) |-> IF p.certs[i] >= 1 /
                                                          ELSE [cls |-> "foreign", subj |-> -1, iss |-> -1, sn |-> -1,
                                                                isd |-> -1, nb |-> 0, na |-> 0, ver |-> 0]]]
 
-Init == l = 1 /\ pool = <<>> /\ nacc = 0 /\ nvalid = 0 /\ nrt = 0
+Init == l = 1 /\ pool = <<>> /\ nacc = 0 /\ nvalid = 0 /\ nrt = 0 /\ nder = 0
 
 Bad(key) == PrintT(<<"VERIF-BAD", l, key>>)
 
@@ -36,18 +36,38 @@ Case ==
     /\ nacc' = nacc + (IF R.val = 1 THEN 1 ELSE 0)
     /\ nvalid' = nvalid + (IF valid THEN 1 ELSE 0)
     /\ nrt' = nrt + (IF R.rt = "ok" THEN 1 ELSE 0)
-    /\ UNCHANGED pool
+    /\ UNCHANGED <<pool, nder>>
+
+(* decoder direction: a structure-aware mutation (mut) of the DER encoding of the valid payload p was
+   handed to DecodeTRC; acc = 1: accepted, q = abstract form of what was decoded, rt/q2 = result of
+   Encode + DecodeTRC of the decoded value, same = 1 iff that re-encoding equals the input bytes.
+   Monitor: accepted => PayloadValid(q), and the decoded (valid) TRC round-trips to itself.
+   Acceptance of a non-canonical encoding (same = 0) is drift only.                              *)
+Der ==
+    LET Q == Expand(R.q) IN
+    /\ (R.acc = 1 /\ ~PayloadValid(Q)) => Bad("der-decode-accepts:" \o Rule(Q))
+    /\ (R.acc = 1 /\ PayloadValid(Q) /\ R.rt \in {"encerr", "decerr"}) => Bad("der-roundtrip:" \o R.rt)
+    /\ (R.acc = 1 /\ PayloadValid(Q) /\ R.rt = "ok" /\ DiffField(R.q, R.q2) # "")
+          => Bad("der-roundtrip-differs:" \o DiffField(R.q, R.q2))
+    \* qsub / q2sub: the validity of the decoded value has a part below the time grid (sub-second)
+    /\ (R.acc = 1 /\ PayloadValid(Q) /\ R.rt = "ok" /\ DiffField(R.q, R.q2) = "" /\ R.qsub # R.q2sub)
+          => Bad("der-roundtrip-differs:validity-sub-second-part")
+    /\ (R.acc = 1 /\ R.same = 0) => PrintT(<<"VERIF-DRIFT", l, "non-canonical-encoding-accepted:" \o R.mut>>)
+    /\ nder' = nder + R.acc
+    /\ UNCHANGED <<pool, nacc, nvalid, nrt>>
 
 Step == /\ l <= Len(Trace)
         /\ l' = l + 1
-        /\ CASE R.ev = "reset" -> pool' = R.pool /\ UNCHANGED <<nacc, nvalid, nrt>>
+        /\ CASE R.ev = "reset" -> pool' = R.pool /\ UNCHANGED <<nacc, nvalid, nrt, nder>>
              [] R.ev = "case" -> Case
-             [] OTHER -> Bad("no-spec-action:" \o R.ev) /\ UNCHANGED <<pool, nacc, nvalid, nrt>>
+             [] R.ev = "der" -> Der
+             [] OTHER -> Bad("no-spec-action:" \o R.ev) /\ UNCHANGED <<pool, nacc, nvalid, nrt, nder>>
 
 Done == /\ l = Len(Trace) + 1
         /\ PrintT(<<"VERIF-STAT", "accepted", nacc>>)
         /\ PrintT(<<"VERIF-STAT", "valid", nvalid>>)
         /\ PrintT(<<"VERIF-STAT", "roundtrips", nrt>>)
+        /\ PrintT(<<"VERIF-STAT", "der_accepted", nder>>)
         /\ PrintT(<<"VERIF-DONE", Len(Trace)>>)
         /\ UNCHANGED vars
 
